@@ -292,7 +292,10 @@ def make_ruledb(kind, recording=True, **kwargs):
 
 def reset_library_globals():
     """Process-global caches of the library that grow without bound."""
-    from comb_spec_searcher.utils import TermsCache
+    try:
+        from comb_spec_searcher.utils import TermsCache
 
-    TermsCache.ALL_CACHES.clear()
-    TermsCache.KEY_CACHE.clear()
+        TermsCache.ALL_CACHES.clear()
+        TermsCache.KEY_CACHE.clear()
+    except (ImportError, AttributeError):
+        pass
